@@ -39,7 +39,19 @@ def consistentB (fs : List (Option Finding)) : Bool :=
        | _, _ => true)
     | _, _ => true)
 
-/-- no detector cancels the scan's context -/
-def NoCancel (ds : List Detector) : Prop := ∀ d ∈ ds, d.cancels = false
+/-- no detector cancels the scan's context while another detector is still to run (the LAST one may: nothing
+is skipped then). A context already cancelled when the scan starts is the subject of `Scalibr.Phases` (C10). -/
+def NoCancel (ds : List Detector) : Prop := ∀ d ∈ ds.dropLast, d.cancels = false
+
+def noCancelB (ds : List Detector) : Bool := ds.dropLast.all fun d => !d.cancels
+
+/-- ALL findings a scan collects: those carried by the extractors' inventories (as they are) and the
+detectors' findings (tagged) — the property's sentence "if two FINDINGS share an advisory ID but differ in
+advisory content, or a finding lacks an advisory, the scan reports failure" speaks of findings, not of
+detector findings only -/
+def allFindings (i : ScanIn) : List (Option Finding) :=
+  (i.fsFindings ++ i.stFindings).map some ++ specFindings i.dets (Index.new (i.fsPkgs ++ i.stPkgs))
+
+def ConsistentAll (i : ScanIn) : Prop := Consistent (allFindings i)
 
 end Scalibr.Detector
